@@ -273,11 +273,44 @@ def rule_epoch_arithmetic(ctx, R):
         da = _deref_assignments(b)
         incs = []
         entry_form = None
+        entry_match = None
         for i, si, tgt, val, ln in da:
-            if tgt.has_call('get_mut') and val.kind == 'bin' and val.name == 'Add':
+            if tgt.has_call('entry') and not tgt.has_call('or_insert') and val.kind == 'bin' and val.name == 'Add' and any(
+                    y.kind == 'call' and y.name.rsplit('::', 1)[-1] in ('get_mut', 'into_mut') and len(y.args) == 1
+                    for y in tgt.walk()):
+                # `match map.entry(scene) { Occupied(e) => *e.get_mut() += inc, Vacant(v) => v.insert(inc) }`
+                entry_match = (tgt, val, ln)
+            elif tgt.has_call('get_mut') and val.kind == 'bin' and val.name == 'Add':
                 incs.append((tgt, val, ln))
             elif tgt.has_call('or_insert') and tgt.has_call('entry') and val.kind == 'bin' and val.name == 'Add':
                 entry_form = (tgt, val, ln)
+        if entry_match is not None and not incs and entry_form is None:
+            tgt, val, ln = entry_match
+            ent = tgt.calls('entry')[0]
+            key = ent.args[1].strip()
+            add = val.args[1]
+            keyed = key.kind == 'place' and key.root == ('param', 2)
+
+            def _is_amt(x, which):
+                if which == 'const1':
+                    return x.kind == 'const' and x.const.get('v') == '1'
+                return x.strip().kind == 'place' and x.strip().root == ('param', 3)
+            vins = [c for c in b.find_calls('insert') if 'VacantEntry' in c.callee or 'Vacant' in str(b.locals[c.args[0]['pl']['l']] if c.args and c.args[0].get('k') in ('copy', 'move') else '')]
+            okv = len(vins) == 1
+            vdetail = '%d vacant inserts' % len(vins)
+            if okv:
+                recv = eb.arg(vins[0], 0)
+                v = eb.arg(vins[0], 1)
+                ek = [y.args[1].strip() for y in recv.walk() if y.kind == 'call' and y.name.rsplit('::', 1)[-1] == 'entry' and len(y.args) > 1]
+                okv = bool(ek) and all(k_.kind == 'place' and k_.root == ('param', 2) for k_ in ek) and _is_amt(v, ins)
+                vdetail = 'vacant.insert(%r) under entry(%s)' % (v, ek[:1])
+            n += 2
+            ctx.check(keyed and _is_amt(add, inc), R, b, name + ':existing-scene-advances', 'occupied entry(%r) += %r' % (key, add),
+                      '%s does not advance the epoch of the scene parameter by %s (occupied-entry form: key %r, amount %r)' % (
+                          name, '1' if inc == 'const1' else 'n', key, add))
+            ctx.check(okv, R, b, name + ':unseen-scene-starts-at-increment', vdetail,
+                      '%s does not start an unseen scene at the increment (vacant-entry form: %s)' % (name, vdetail))
+            continue
         if entry_form is not None and not incs:
             # `*map.entry(scene).or_insert(0) += inc` covers both the existing and the unseen scene
             tgt, val, ln = entry_form
@@ -922,6 +955,15 @@ def rule_batch_request(ctx, R):
                 n += 1
                 ctx.check(k.kind == 'place' and k.root == ('param', 2), R, b, 'batch.add:new-entry-keyed-by-scene', repr(k),
                           'a new per-scene entry is inserted under %r, not under the scene id parameter' % k, c.ln)
+                keyed += 1
+            elif 'Vacant' in c.callee or any(y.kind == 'call' and y.name.rsplit('::', 1)[-1] == 'entry' for y in recv.walk()):
+                # `match map.entry(scene) { Vacant(v) => v.insert(vec![elt]) }`: the new entry is keyed by the entry() call
+                ek = [y.args[1].strip() for y in recv.walk() if y.kind == 'call' and y.name.rsplit('::', 1)[-1] == 'entry'
+                      and len(y.args) > 1]
+                n += 1
+                ctx.check(bool(ek) and all(k_.kind == 'place' and k_.root == ('param', 2) for k_ in ek), R, b,
+                          'batch.add:new-entry-keyed-by-scene', repr(ek[:1]),
+                          'a new per-scene entry is inserted through entry(%s), not under the scene id parameter' % ek[:1], c.ln)
                 keyed += 1
             continue
         calls = [y for y in recv.walk() if y.kind == 'call']
